@@ -659,6 +659,34 @@ class Visitor:
                     ],
                 )
 
+    def visit_expr(self, node: ast.Expr) -> None:
+        """Visit an expression statement node.
+
+        Parameters:
+            node: The node to visit.
+        """
+        with suppress(AttributeError, IndexError):
+            call = node.value
+            all_method = (
+                isinstance(call, ast.Call)
+                and call.func.value.id == "__all__"  # type: ignore[union-attr]
+                and call.func.attr in {"extend", "append"}  # type: ignore[union-attr]
+                and self.current.is_module
+            )
+            if all_method:
+                # `__all__.extend(names)` adds the names, `__all__.append(name)` adds a single one.
+                argument = call.args[0]  # type: ignore[union-attr]
+                if call.func.attr == "append":  # type: ignore[union-attr]
+                    argument = ast.List(elts=[argument], ctx=ast.Load())
+                # We assume `exports` is not `None` at this point.
+                self.current.exports.extend(  # type: ignore[union-attr]
+                    [
+                        name if isinstance(name, str) else ExprName(name.name, parent=name.parent)
+                        for name in safe_get__all__(ast.Expr(value=argument), self.current)  # type: ignore[arg-type]
+                    ],
+                )
+        self.generic_visit(node)
+
     def visit_if(self, node: ast.If) -> None:
         """Visit an "if" node.
 
